@@ -115,7 +115,8 @@ Proof. exact for_orig_var_after_refuted. Qed.
 Print Assumptions c36_for_var_after_refuted.
 
 (* ---- statements: whole function bodies of the subset (assignment, augmented assignment,
-   if/elif/else, while, for-range, break, continue, return, pass).  [pcompile] (Model/Py2IrStmt.v)
+   if/elif/else, while, for-range, break, continue, return, pass, tuple assignment
+   x1, ..., xn = e1, ..., en with simultaneous evaluation).  [pcompile] (Model/Py2IrStmt.v)
    models gen_statement's CFG construction; the CFG is represented unfolded along its forward
    edges (Model/StmtCode.v: join blocks duplicated, back edges and loop heads explicit, the
    for-loop phi and bound as registers, locals as stack slots); [pruns] executes it with
